@@ -7,7 +7,14 @@ declarations that START at or before the cursor.  For one scope (any declaration
   * `complete_only_visible` : an offered declaration that is NOT visible has the cursor inside its own
     declaring statement — finding class C14-K1 ('local abc = ab|'), and nothing else;
   * `K1_witness`.
-Which scopes form the chain (FindMinScope) and the prefix filter are validated by correspondence.
+For the whole chain of enclosing scopes and the typed prefix (any depth, any number of declarations):
+  * `chain_offers_every_visible` : every declaration of an enclosing scope that is visible under Lua's rule and
+    whose name starts with the prefix is in the offered list;
+  * `chain_offers_only_visible_or_K1` : every offered declaration has the prefix, belongs to an enclosing scope,
+    and is visible or has the cursor inside its own declaring statement (class K1) — in particular a local
+    declared later, and (because only enclosing scopes are in the chain) a local of a block that does not
+    enclose the cursor, is never offered.
+Which scopes form the chain (FindMinScope) is validated by correspondence.
 -/
 import LuaHelper.Props.C05
 namespace LuaHelper.C14
@@ -73,5 +80,55 @@ theorem K1_witness :
     let d : FDecl := { var := { name := [97, 98, 99], loc := ⟨1, 6, 1, 9⟩, ref := .name ⟨1, 12, 1, 14⟩ }, endLine := 1, endCol := 14 }
     offered d 1 14 = true ∧ visible d 1 14 = false ∧ insideOwnStatement d 1 14 = true := by decide
 #print axioms K1_witness
+
+/-! ### the whole chain of enclosing scopes, with the typed prefix -/
+
+/-- what `GetCompleteVar` collects walking the chain outwards, filtered by the typed prefix -/
+def offeredChain (chain : List (List FDecl)) (pre : Bytes) (line col : Int) : List FDecl :=
+  chain.flatMap fun ds => ds.filter fun d => offered d line col && pre.isPrefixOf d.var.name
+
+theorem chain_offers_every_visible (chain : List (List FDecl)) (hwf : ∀ ds ∈ chain, ∀ d ∈ ds, d.wf)
+    (pre : Bytes) (line col : Int) (ds : List FDecl) (hds : ds ∈ chain) (d : FDecl) (hd : d ∈ ds)
+    (hv : visible d line col = true) (hp : pre.isPrefixOf d.var.name = true) :
+    d ∈ offeredChain chain pre line col := by
+  unfold offeredChain
+  rw [List.mem_flatMap]
+  refine ⟨ds, hds, ?_⟩
+  rw [List.mem_filter]
+  exact ⟨hd, by simp [complete_has_visible d (hwf ds hds d hd) line col hv, hp]⟩
+#print axioms chain_offers_every_visible
+
+theorem chain_offers_only_visible_or_K1 (chain : List (List FDecl)) (pre : Bytes) (line col : Int) (d : FDecl)
+    (h : d ∈ offeredChain chain pre line col) :
+    (∃ ds ∈ chain, d ∈ ds) ∧ pre.isPrefixOf d.var.name = true ∧
+      (visible d line col = true ∨ insideOwnStatement d line col = true) := by
+  unfold offeredChain at h
+  rw [List.mem_flatMap] at h
+  obtain ⟨ds, hds, hd⟩ := h
+  rw [List.mem_filter] at hd
+  obtain ⟨hd, hf⟩ := hd
+  simp only [Bool.and_eq_true] at hf
+  refine ⟨⟨ds, hds, hd⟩, hf.2, ?_⟩
+  cases hv : visible d line col with
+  | true => exact Or.inl rfl
+  | false => exact Or.inr (complete_only_visible d line col hf.1 hv)
+#print axioms chain_offers_only_visible_or_K1
+
+/-- a local declared after the cursor is never offered, whatever the chain -/
+theorem declared_later_not_offered (chain : List (List FDecl)) (pre : Bytes) (line col : Int) (d : FDecl)
+    (hlater : line < d.var.loc.sl ∨ (line = d.var.loc.sl ∧ col < d.var.loc.sc)) :
+    d ∉ offeredChain chain pre line col := by
+  intro h
+  unfold offeredChain at h
+  rw [List.mem_flatMap] at h
+  obtain ⟨ds, _, hd⟩ := h
+  rw [List.mem_filter] at hd
+  have ho := hd.2
+  simp only [Bool.and_eq_true] at ho
+  have := ho.1
+  unfold offered at this
+  simp at this
+  omega
+#print axioms declared_later_not_offered
 
 end LuaHelper.C14
